@@ -22,8 +22,11 @@ structure Sh where
   members : List Nat := []         -- connections in the hub's membership table
   recorded : List Nat := []        -- connections whose cancel channel the hub has put in the chanmap
   cancelled : List Nat := []       -- connections whose cancel channel has been closed
-  acked : Bool := false            -- ghost: a deny has been acknowledged (204 returned), no allow acknowledged since
+  acked : Bool := false            -- ghost: a deny has been acknowledged (204 returned) and no explicit allow has taken effect since
   sessionsOkAfterAck : Nat := 0    -- ghost: session requests STARTED after the ack that got a code
+  allowEpoch : Nat := 0            -- ghost: number of explicit allows that have taken effect
+  flagA : Bool := false            -- ghost: pattern A occurred: a session's `Allow` ran while the booking was on the deny list
+  flagB : Bool := false            -- ghost: pattern B occurred: the hub recorded a connection while the booking was denied and no closure was pending
 deriving Repr, DecidableEq
 
 /-- program counters of the client-side threads -/
@@ -35,9 +38,15 @@ inductive Pc where
   | done (result : Nat)                         -- 200 / 204 / 400 (refused) / 1 (joined) / 0 (ws refused)
 deriving Repr, DecidableEq
 
+/-- requests arrive at the start of their handler -/
+def Pc.isStart : Pc → Bool
+  | .sStart | .dStart | .aStart | .wStart _ => true
+  | _ => false
+
 structure Thread where
   pc : Pc
   startedAfterAck : Bool := false     -- ghost, for sessions
+  epochAtList : Nat := 0              -- ghost, for denies: `allowEpoch` when this deny listed the booking
 deriving Repr, DecidableEq
 
 /-- one step of a client thread: from its current scheduling point to the next one -/
@@ -45,17 +54,18 @@ def stepClient (s : Sh) (t : Thread) (conn : Nat) : Sh × Thread :=
   match t.pc with
   -- session: guards incl. `IsDenied`, then park before `Allow`
   | .sStart => if s.denied then (s, { t with pc := .done 400 }) else (s, { t with pc := .sChecked, startedAfterAck := s.acked })
-  | .sChecked => ({ s with denied := false }, { t with pc := .sAllowed })          -- `DenyStore.Allow` (also un-denies!)
+  | .sChecked => ({ s with denied := false, flagA := s.flagA || s.denied }, { t with pc := .sAllowed })   -- `DenyStore.Allow` (also un-denies!)
   | .sAllowed => ({ s with codes := s.nextCode :: s.codes, nextCode := s.nextCode + 1 }, { t with pc := .sMinted })
   | .sMinted => ({ s with sessionsOkAfterAck := s.sessionsOkAfterAck + (if t.startedAfterAck then 1 else 0) }, { t with pc := .done 200 })
   -- deny: `Deny`, `DeleteByBookingID`, channel send, answer
-  | .dStart => ({ s with denied := true }, { t with pc := .dListed })
+  | .dStart => ({ s with denied := true }, { t with pc := .dListed, epochAtList := s.allowEpoch })
   | .dListed => ({ s with codes := [] }, { t with pc := .dPurged })
   | .dPurged => ({ s with queue := s.queue + 1 }, { t with pc := .dNotified })
-  | .dNotified => ({ s with acked := true }, { t with pc := .done 204 })
+  -- acknowledged; it counts as "in effect" unless an explicit allow has taken effect since this deny listed the booking
+  | .dNotified => ({ s with acked := s.acked || decide (s.allowEpoch = t.epochAtList) }, { t with pc := .done 204 })
   -- allow
-  | .aStart => ({ s with denied := false }, { t with pc := .aDone })
-  | .aDone => ({ s with acked := false }, { t with pc := .done 204 })
+  | .aStart => ({ s with denied := false, acked := false, allowEpoch := s.allowEpoch + 1 }, { t with pc := .aDone })   -- the explicit allow takes effect here
+  | .aDone => (s, { t with pc := .done 204 })
   -- admission: route/upgrade; exchange + checks incl. the deny re-check; hand the client to the hub
   | .wStart c => (s, { t with pc := .wPre c })
   | .wPre c =>
@@ -79,11 +89,14 @@ def sysEnabled (s : Sh) : Sys → Bool
   | .crossbar => s.queue > 0
   | .teardown k => s.cancelled.contains k && s.members.contains k
 
-def stepSys (s : Sh) : Sys → Sh
+/-- `pending` = a closure of the booking's recorded channels is still to come (a notification is queued, or a
+    deny has listed the booking and not yet queued its notification) -/
+def stepSys (s : Sh) (pending : Bool) : Sys → Sh
   | .hubRecord =>
       match s.toRecord with
       | [] => s
-      | k :: rest => { s with toRecord := rest, members := s.members ++ [k], recorded := s.recorded ++ [k] }
+      | k :: rest => { s with toRecord := rest, members := s.members ++ [k], recorded := s.recorded ++ [k],
+                              flagB := s.flagB || (s.denied && !pending) }
   | .crossbar =>
       if s.queue > 0 then { s with queue := s.queue - 1, cancelled := s.cancelled ++ s.recorded, recorded := [] } else s
   | .teardown k =>
@@ -101,6 +114,10 @@ inductive Act where
   | spawn (pc : Pc)          -- a new request arrives
 deriving Repr, DecidableEq
 
+def Thread.denyInFlight (t : Thread) : Bool := t.pc == .dListed || t.pc == .dPurged
+
+def pendingClose (c : Cfg) : Bool := c.sh.queue > 0 || c.threads.any Thread.denyInFlight
+
 def step (c : Cfg) : Act → Cfg
   | .client i =>
       match c.threads[i]? with
@@ -108,8 +125,8 @@ def step (c : Cfg) : Act → Cfg
       | some t =>
         let (sh', t') := stepClient c.sh t i
         { sh := sh', threads := c.threads.set i t' }
-  | .sys x => { c with sh := stepSys c.sh x }
-  | .spawn pc => { c with threads := c.threads ++ [{ pc := pc }] }
+  | .sys x => { c with sh := stepSys c.sh (pendingClose c) x }
+  | .spawn pc => if pc.isStart then { c with threads := c.threads ++ [{ pc := pc }] } else c
 
 def run (acts : List Act) (c : Cfg := {}) : Cfg := acts.foldl step c
 
